@@ -44,9 +44,11 @@ def harnesses(tier, seed):
     else:
         for term, ty in (("count", "MF"), ("count", "FMF"), ("count", "FLF"), ("reduce_xor", "MF"), ("reduce_xor", "FMF"),
                          ("reduce_xor", "FLF"), ("find", "MF"), ("find", "FMF"), ("find", "FLF")):
-            for (n, t, c) in ((4, 2, 1), (4, 2, 2), (5, 2, 2), (5, 3, 1), (5, 2, 3), (5, 3, 2)):
+            for (n, t, c) in (((4, 2, 1), (4, 2, 2), (5, 2, 2), (5, 3, 1), (5, 2, 3)) if ty != "FLF" else ((4, 2, 1), (3, 2, 2))):
                 hs.append(e2e(term, ty, n, t, c))
-            hs.append(e2e(term, ty, 4, 2, 2, src="vec"))
-            hs.append(e2e(term, ty, 4, 2, 2, src="range"))
+            if ty != "FLF":
+                hs.append(e2e(term, ty, 4, 2, 2, src="vec"))
+                hs.append(e2e(term, ty, 4, 2, 2, src="range"))
+                hs.append(e2e(term, ty, 4, 2, 1, src="sched"))
         hs.append(e2e("count", "MF", 6, 6, 1, avail=8))
     return hs
